@@ -83,6 +83,9 @@ fn mh_part(ctx: &Ctx) {
                                 ));
                             } else {
                                 ctx.outcome(if unchanged { "MH:stayed" } else { "MH:moved-to-valid" }, 1);
+                                if !y.is_finite() || support_logp(kind, &[*y]) == f64::NEG_INFINITY {
+                                    ctx.sample_tagged("MH candidate outside the support", || json!({"input": case.clone(), "state_after": jf(st[0]), "log_density_after": jf(lp)}));
+                                }
                                 if !unchanged {
                                     ctx.distinct(hash_str(&case.to_string()));
                                 }
@@ -162,6 +165,7 @@ where
                                     } else {
                                         ctx.outcome(if unchanged { "HMC:stayed" } else { "HMC:moved-to-valid" }, 1);
                                         if rec.accept_logp[i].is_nan() {
+                                            ctx.sample_tagged("HMC NaN-energy candidate", || json!({"input": case.clone(), "row": i, "previous": jfs(&rec.prev[i]), "proposal": jfs(&rec.proposed[i]), "after": jfs(&rec.after[i])}));
                                             ctx.outcome("HMC:NaN-energy-candidate", 1);
                                         }
                                         if rec.logp_proposed[i] == f64::NEG_INFINITY {
@@ -316,8 +320,6 @@ pub fn run(ctx: &Ctx) {
     hmc_part::<f32, BF32>(ctx, "f32 / NdArray<f32>", true);
     nuts_part::<f64, BF64>(ctx, "f64 / NdArray<f64>", false);
     nuts_part::<f32, BF32>(ctx, "f32 / NdArray<f32>", true);
-    ctx.sample(json!({"MH": {"target": "Gamma(2,1): ln x - x", "x": 1.0, "candidate": -1e-300, "u": "smallest positive variate"}}));
-    ctx.sample(json!({"HMC": {"target": "ln x", "eps": 1e10, "L": 3, "momentum": [[-1000.0, 2.0], [2.0, 1000.0]], "u": 1e-30}}));
     ctx.assume("acceptance draws equal to exactly 0 are excluded by the statement; a NUTS transition that needs more than 2^12 leapfrog steps in these configurations is reported as a hang");
     for k in ["MH:stayed", "MH:moved-to-valid", "HMC:stayed", "HMC:moved-to-valid", "HMC:NaN-energy-candidate", "NUTS:stayed", "NUTS:moved-to-valid", "NUTS:NaN-joint-leaf"] {
         if ctx.outcome_count(k) == 0 {
